@@ -480,3 +480,14 @@ Proof.
   assert (BY : (snd (ellipse_pos rx ry cs sn c u v) - snd c) * (snd (ellipse_pos rx ry cs sn c u v) - snd c) <= r * r) by lra.
   apply (sq_le_abs _ _ R0) in BX. apply (sq_le_abs _ _ R0) in BY. lra.
 Qed.
+
+(** satisfiability of hypotheses *)
+Example chk_touch_ex : chk_touch (1 # 1024) (mkB 0 0 4 (3#2)) 3 [(0, 0); (2, 3); (4, 0)] (1#2) = true.
+Proof. vm_compute. reflexivity. Qed.
+Example chkq_needs_split_ex : inb 0 (3#2) 3 = false /\ chkq 20 0 (3#2) 0 3 0 = true.
+Proof. split; vm_compute; reflexivity. Qed.
+Example fastbounds_arc_contains_ex :
+  0 <= 10 /\ 0 <= 5 /\ (3#5) * (3#5) + (4#5) * (4#5) == 1 /\ (5#13) * (5#13) + (12#13) * (12#13) == 1.
+Proof. repeat split; try reflexivity; discriminate. Qed.
+Example on_path_ex : on_path (0, 0) [BQ (2, 3) (4, 0)] (Bquad (0, 0) (2, 3) (4, 0) (1#2)).
+Proof. cbn [on_path seg_ctrl bez]. left. exists (1#2). split; [lra|]. cbn [opteq]. apply pteq_refl. Qed.
